@@ -45,6 +45,13 @@ def weave(rng, plan, fault_rate=0.2, classes=FAULT_CLASSES, reuse=True):
             if f is not None:
                 events.append(("fault", f))
                 pending_reuse.extend(f.new_syms)
+                if f.followup is not None:
+                    try:
+                        f.followup.apply(w)
+                        f.followup.reuse = True
+                        events.append(("decl", f.followup))
+                    except (Rejected, OutOfDomain, KeyError):
+                        pass
         try:
             d.apply(w)
         except (Rejected, OutOfDomain, KeyError):
